@@ -103,7 +103,7 @@ def run(ctx):
     cases = [{'scenario': s, 'seed': ctx.rng.getrandbits(30)} for s in SCENARIOS for _ in range(n)]
     # systematic single-preemption schedules around the object pools (KeyPool / typed pools): see c15_impl.directed
     nd = {'quick': 1, 'thorough': 8}[ctx.tier]
-    cases += [{'scenario': s, 'seed': ctx.rng.getrandbits(20), 'mode': 'directed'} for s in ('decorate', 'check', 'register_conflict') for _ in range(nd)]
+    cases += [{'scenario': s, 'seed': ctx.rng.getrandbits(20), 'mode': 'directed'} for s in ('decorate', 'check', 'register_conflict', 'conf') for _ in range(nd)]
     distinct_seen = 0
     for lo in range(0, len(cases), 120):
         part = cases[lo:lo + 120]
